@@ -1,4 +1,5 @@
 import Cello.Fail
+import Cello.FailIdx
 import Driver.Common
 /- driver for engine `fail` (C12): interprets the op file on the model `Cello.Fail` and prints, for every op, the
    result (ok / raised:<exception> / ub) and the canonical dump of the object operated on — what harness/h_fail.c
@@ -150,6 +151,18 @@ def showRet : Ret → String
   | .nat n => s!"ok:{n}"
   | .vals vs => "ok:(" ++ showVals vs ++ ")"
   | .name s => "ok:" ++ s
+
+/-- the message of an index / empty-pop refusal of an Array / List / Tuple: the format and arguments of the throw site of the refusing
+    C function (`CelloGen.Fail.throwSites`), rendered by `Cello.Fail.SeqK.refusalMsg` — the harness prints `current(Exception)->msg` -/
+def refusalMsgOf (o : Obj) (op : Op) (r : Res) : String :=
+  match r with
+  | .raised .IndexOutOfBoundsError =>
+    let sk : Option (SeqK × Nat) := match o with
+      | .arr a => some (.arr, a.items.length) | .lst l => some (.lst, l.items.length) | .tup t => some (.tup, t.items.length) | _ => none
+    match sk with
+    | some (k, n) => (match k.refusalMsg n op with | some m => " msg=" ++ m | none => " msg=?")
+    | none => ""
+  | _ => ""
 
 def showRes : Res → String
   | .ok r => showRet r
@@ -445,7 +458,7 @@ def line (st : St) (l : String) : St × String :=
           let dies := poisons o op r
           ({ st with store := σ', nops := st.nops + 1, nraised := st.nraised + (match r with | .raised _ => 1 | _ => 0),
                      dead := if dies then id :: st.dead else st.dead },
-           "O " ++ showRes r ++ " | " ++ (if dies then "dead" else dump o' mv))
+           "O " ++ showRes r ++ refusalMsgOf o op r ++ " | " ++ (if dies then "dead" else dump o' mv))
   | _ => bad
 
 end FailDrv
